@@ -57,6 +57,15 @@ def gen_compr(rng, depth, scope, nest_budget):
     inner = set(scope) | set(names)
     conds = []
     for _ in range(rng.choice([0, 0, 1, 1, 2])):
+        if names and nest_budget[0] > 0 and rng.random() < 0.35:
+            # a condition whose ONLY use of the outer variable v is inside the generator source of an inner comprehension that
+            # re-binds v: it looks loop-invariant to a free-variable analysis that treats the inner binding as covering its source
+            nest_budget[0] -= 1
+            v = rng.choice(names)
+            src = ("range", ("lit", rng.randrange(0, 2)), ("var", v)) if rng.random() < 0.6 else ("list", [("var", v), ("lit", rng.randrange(0, 4))])
+            inner_c = ("compr", rng.choice([("var", v), ("lit", 1), ("mul", ("var", v), ("lit", 2))]), [(v, src)], [])
+            conds.append((rng.choice(["<", "<=", "==", "!="]), (rng.choice(["sum", "size", "max0"]), inner_c), ("lit", rng.randrange(0, 8))))
+            continue
         conds.append((rng.choice(["<", "<=", "==", "!="]), gen_expr(rng, depth, inner, nest_budget), gen_expr(rng, min(depth, 1), inner, nest_budget)))
     body = gen_expr(rng, depth, inner, nest_budget)
     return ("compr", body, gens, conds)
